@@ -74,7 +74,13 @@ def check_code(n, via):
         from bromelia.base import DiameterAnswer, DiameterMessage
         from bromelia.avps import ResultCodeAVP
         try:
-            ans = DiameterAnswer(command_code=257, application_id=0, avps=[ResultCodeAVP(n)])
+            avps = [ResultCodeAVP(n)]
+            if "+exp" in via:
+                # the answer also carries an Experimental-Result of another family: the predicates speak about the Result-Code
+                from bromelia.avps import ExperimentalResultAVP, ExperimentalResultCodeAVP, VendorIdAVP
+                other = {1: 5420, 2: 5420, 3: 2001, 4: 2001, 5: 2001}.get(fam, 5001)
+                avps.append(ExperimentalResultAVP([VendorIdAVP(10415), ExperimentalResultCodeAVP(other)]))
+            ans = DiameterAnswer(command_code=257, application_id=0, avps=avps)
             if via.endswith("-e"):
                 ans.header.set_error_bit(True)        # the family of a code does not depend on the header's E bit
             if via.startswith("decoded"):
@@ -140,7 +146,7 @@ def main(ctx):
     n_rand = 3000 if ctx.quick else 200000
     codes = st.one_of(st.sampled_from(bound), st.integers(0, 2**32 - 1), st.integers(900, 6100))
     cases = st.one_of(
-        st.builds(lambda n, via: {"n": n, "via": via}, codes, st.sampled_from(["int", "answer", "decoded", "answer-e", "decoded-e"])),
+        st.builds(lambda n, via: {"n": n, "via": via}, codes, st.sampled_from(["int", "answer", "decoded", "answer-e", "decoded-e", "answer+exp", "decoded+exp"])),
         st.builds(lambda h, e: {"hist": h, "e": e}, st.lists(st.one_of(st.integers(900, 6100), st.sampled_from([2001, 5012, 3002, 4001, 1001])),
                                                              min_size=2, max_size=4), st.booleans()))
 
@@ -152,7 +158,7 @@ def main(ctx):
                    classes=[case["via"], "n>65535" if case["n"] > 65535 else "n<=65535"])
 
     common.hyp_collect(cases, body, n_rand, ctx.seed)
-    ctx.required_classes = ["int", "answer", "decoded", "n>65535", "answer-e", "decoded-e", "history-in-place-change"]
+    ctx.required_classes = ["int", "answer", "decoded", "n>65535", "answer-e", "decoded-e", "history-in-place-change", "answer+exp", "decoded+exp"]
     ctx.assumptions = ["multiples of 1000 and answers without a Result-Code AVP are outside the statement",
                        "answer-object predicates are exercised on DiameterAnswer objects holding ResultCodeAVP(n), built and decoded"]
     return col
